@@ -206,6 +206,14 @@ def install_modular(I, C, target_qual):
                 return interp.call(handler, [local], {})
             return h
         I.contracts[q] = make(q, handler)
+    observe = I.getattr(C, "observe", None) or {}
+    for q, cb in observe.items():
+        def mk(q, cb):
+            def ob(interp, f, args, kwargs, r):
+                local = interp.bind_args(f, args, kwargs)
+                interp.call(cb, [local, r], {})
+            return ob
+        I.observers[q] = mk(q, cb)
     on_yield = I.getattr(C, "on_yield", None)
     on_yield_from = I.getattr(C, "on_yield_from", None)
     if on_yield is not None:
